@@ -131,10 +131,42 @@ def chain_holds(case, nu, om):
 
 
 # ------------------------------------------------------------------ programs
+def gen_directed(i, j):
+    """systematic grid, always run: roll in {0, 90 deg} x pitch in {0, 90 deg} x flat / tall box in a square workspace
+    (which inradius may erode the container), and mesh-volume containers incl. one whose coarse voxel mesh is not a
+    volume (the erosion retry loop)."""
+    if j < 8:
+        roll, pitch, flat = (j & 1) * 90, ((j >> 1) & 1) * 90, bool(j & 4)
+        dims = (2, 2, 0.1) if flat else (1, 1, 3)
+        src = ("workspace = Workspace(PolygonalRegion([0@0, 4@0, 4@4, 0@4]))\n"
+               f"ego = new Object in workspace, with width {dims[0]}, with length {dims[1]}, with height {dims[2]}, "
+               f"with roll {roll} deg, with pitch {pitch} deg\n")
+        return dict(id=f"g{i}", src=src, seed=1000 + j, meta=dict(template="contain2d", directed=True, roll=roll, pitch=pitch, flat=flat),
+                    mode2D=False)
+    shape, rot, dims = [("cone(radius=3, height=2)", (0.2815787603227047, 0.08504242956601893, 2.5072953117596093), (4, 4, 4)),
+                        ("box(extents=[6, 6, 6])", (0.3, 0, 0), (2, 2, 2))][j - 8]
+    src = ("import trimesh\nfrom scenic.core.vectors import Orientation\n"
+           f"workspace = Workspace(MeshVolumeRegion(trimesh.creation.{shape}, rotation=Orientation.fromEuler{rot}))\n"
+           f"ego = new Object in workspace, with width {dims[0]}, with length {dims[1]}, with height {dims[2]}\n")
+    return dict(id=f"g{i}", src=src, seed=2000 + j, meta=dict(template="mesh3d", directed=True, shape=shape), mode2D=False)
+
+
 def gen_program(rng, i):
-    kind = rng.choice(["contain2d", "contain2d", "contain2d", "visibility", "rh", "rh", "rh", "rh", "dist"])
+    kind = rng.choice(["contain2d", "contain2d", "contain2d", "visibility", "rh", "rh", "rh", "rh", "dist", "mesh3d"])
     L = []
     meta = dict(template=kind)
+    if kind == "mesh3d":
+        sc = rng.choice([1, 2, 5])
+        shape = rng.choice([f"cone(radius={3 * sc}, height={rng.choice([2, 6]) * sc})", f"box(extents=[{4 * sc}, {6 * sc}, {3 * sc}])",
+                            f"cylinder(radius={2 * sc}, height={3 * sc})", f"icosphere(radius={2 * sc}, subdivisions=2)"])
+        rot = tuple(round(rng.uniform(0, 3), 2) for _ in range(3)) if rng.random() < 0.7 else (0, 0, 0)
+        d = [rng.choice([0.3, 0.6, 1, 1.5]) * sc for _ in range(3)]
+        L.append("import trimesh")
+        L.append("from scenic.core.vectors import Orientation")
+        L.append(f"workspace = Workspace(MeshVolumeRegion(trimesh.creation.{shape}, rotation=Orientation.fromEuler{rot}))")
+        L.append(f"ego = new Object in workspace, with width {d[0]}, with length {d[1]}, with height {d[2]}")
+        meta.update(shape=shape, rot=list(rot))
+        return dict(id=f"p{i}", src="\n".join(L) + "\n", seed=rng.randint(0, 10 ** 6), meta=meta, mode2D=False)
     if kind == "contain2d":
         w, h = rng.choice([4, 6, 10]), rng.choice([4, 6, 10])
         shape = rng.choice(["rect", "L"])
@@ -231,6 +263,82 @@ def gen_program(rng, i):
                 mode2D=False)
 
 
+def gen_maxdist(rng, i):
+    """three objects with their own visibleDistance / cameraOffset / size, requireVisible flags, `visible from`
+    links in any direction and distance requirements: which object's visibleDistance, camera offset and radius enter
+    maxDistanceBetween(a, b) for every ordered pair."""
+    n = 3
+    egoi = rng.randrange(n)
+    objs = []
+    for k in range(n):
+        vd = rng.choice([None, 10, 20, 35, 60, 80, 120])
+        cam = rng.choice([None, None, (3, 4), (-3, 4), (0, 2), ("Range(-1, 3)", 4), ("Normal(0, 1)", 0)])
+        dims = [rng.choice([1, 1, 2, 4, 6, "Range(1, 3)"]) for _ in range(3)]
+        objs.append(dict(vd=vd, cam=cam, dims=dims, reqvis=(k != egoi and rng.random() < 0.35), observer=None))
+    order = list(range(n))
+    rng.shuffle(order)          # definition order: an observer must be defined before the object it observes
+    for pos, k in enumerate(order):
+        earlier = order[:pos]
+        if earlier and rng.random() < 0.6:
+            objs[k]["observer"] = rng.choice(earlier)
+    if egoi in order and objs[egoi]["observer"] is not None and False:
+        pass
+    L = []
+    for pos, k in enumerate(order):
+        o = objs[k]
+        name = "ego" if k == egoi else f"o{k}"
+        spec = [f"at (Range({10 * k}, {10 * k + 1}), 0)", "with allowCollisions True", f"with tag {k}",
+                f"with width {o['dims'][0]}", f"with length {o['dims'][1]}", f"with height {o['dims'][2]}"]
+        if o["vd"] is not None:
+            spec.append(f"with visibleDistance {o['vd']}")
+        if o["cam"] is not None:
+            spec.append(f"with cameraOffset ({o['cam'][0]}, {o['cam'][1]}, 0)")
+        if o["reqvis"]:
+            spec.append("with requireVisible True")
+        if o["observer"] is not None:
+            ob = o["observer"]
+            spec.append("visible from " + ("ego" if ob == egoi else f"o{ob}"))
+        L.append(f"{name} = new Object " + ", ".join(spec))
+    # the ego must exist before `require distance to`; requirements come last
+    rels = [[] for _ in range(n)]
+    for _ in range(rng.choice([0, 1, 2, 3])):
+        a = egoi                    # the matcher only recognises distances measured from the ego
+        b = rng.choice([k for k in range(n) if k != egoi])
+        d = rng.choice([5, 15, 25, 45, 90])
+        nb = f"o{b}"
+        form = rng.choice(["le", "lt", "chain", "ge-rev"])
+        q = rng.choice([f"(distance to {nb})", f"(distance from {nb})"])
+        txt = {"le": f"{q} <= {d}", "lt": f"{q} < {d}", "chain": f"1 <= {q} <= {d}", "ge-rev": f"{d} >= {q}"}[form]
+        L.append("require " + txt)
+        rels[a].append((b, d))
+        rels[b].append((a, d))      # the converse relation recorded on the target
+    return dict(id=f"m{i}", src="\n".join(L) + "\n", ego=egoi, objs=objs, rels=rels)
+
+
+def maxdist_line(case, i, j):
+    def up(x):     # upper support bound of a generated scalar
+        if isinstance(x, str):
+            if x.startswith("Range("):
+                return float(x[6:-1].split(",")[1])
+            return None
+        return float(x)
+    toks = [f"MD {case['ego']} {len(case['objs'])}"]
+    for o in case["objs"]:
+        vd = 50.0 if o["vd"] is None else float(o["vd"])
+        if o["cam"] is None:
+            cam = 0.0
+        else:
+            cx, cy = up(o["cam"][0]), up(o["cam"][1])
+            cam = None if cx is None or cy is None else math.hypot(cx, cy)
+        rad = math.hypot(*[up(d) for d in o["dims"]]) / 2
+        toks.append(f"{qt(vd)} {'None' if cam is None else qt(cam)} {qt(rad)} {int(o['reqvis'])} "
+                    f"{'None' if o['observer'] is None else o['observer']}")
+    for rl in case["rels"]:
+        toks.append(f"{len(rl)} " + " ".join(f"{t} {qt(u)}" for t, u in rl) if rl else "0")
+    toks.append(f"{i} {j}")
+    return " ".join(toks)
+
+
 def main():
     c = Check(PID, "proof")
     c.cov["rule"] = ("(H-a) comparison chains of length 1-3 over every operator (< <= > >= == != is, is not, in, not in), constants / "
@@ -249,7 +357,8 @@ def main():
     nmatch = 2000 if quick else 200000
     nrh = 400 if quick else 20000
     niter = 40 if quick else 400
-    nprog = 56 if quick else 1500
+    nprog = 50 if quick else 1500
+    nmd = 60 if quick else 3000
     nscenes = 50 if quick else 200
 
     # ================= H-a: matcher
@@ -402,8 +511,39 @@ def main():
                         c.violation("buffer-insufficient", "dilation passes x voxel size is less than the requested buffer",
                                     dict(case=cs, impl=r, grown=grown, max_extent_below_1=bool(ext < 1)))
 
+    # ================= H-a: maxDistanceBetween / visibilityBound plumbing on every ordered pair
+    mdcases = [gen_maxdist(rng, i) for i in range(nmd)]
+    mdres = common.run_impl("impl_c08.py", dict(kind="maxdist", cases=mdcases), timeout=3000)["results"]
+    lines, keys = [], []
+    for cs, r in zip(mdcases, mdres):
+        if "pairs" not in r:
+            continue
+        for i, j, d, vb in r["pairs"]:
+            lines.append(maxdist_line(cs, i, j))
+            keys.append((cs, r, i, j, d))
+    mdout = common.run_driver(exe, lines) if lines else []
+    for cs, r in zip(mdcases, mdres):
+        if "pairs" not in r:
+            c.violation("harness", "maxDistanceBetween scenario does not compile", dict(case=cs, result=r), no_input=True)
+    for (cs, r, i, j, d), m in zip(keys, mdout):
+        finite = isinstance(d, list)
+        c.count(("md", cs["src"], i, j), nontrivial=finite)
+        c.hist("maxdist:" + ("finite" if finite else str(d)))
+        c.cov["traces_validated_against_impl"] += 1
+        masis, mfixed = m.split() if not m.startswith("FAIL") else ("FAIL", "FAIL")
+
+        def agrees(mv):
+            return (mv == "INF" and d == "INF") or (finite and mv not in ("INF", "ERR", "FAIL") and close(fq(d), pq(mv)))
+        rep = dict(maxdist=cs, obj=i, target=j, impl=d, model=m, which="maxDistanceBetween")
+        if masis == "ERR" and d == "EXC:TypeError":
+            c.violation("maxdist-raises", "maxDistanceBetween raises TypeError: visibilityBound returned None (an unknown camera "
+                        "offset bound) and is passed to min()", dict(rep, unknown_bound=True))
+        elif not (agrees(masis) or (masis == "ERR" and agrees(mfixed))):
+            c.violation("correspondence", "maxDistanceBetween differs from the model (which object's visibleDistance / camera "
+                        "offset / radius bounds the distance between the two)", rep)
+
     # ================= H-b: pruned vs unpruned
-    progs = [gen_program(rng, i) for i in range(nprog)]
+    progs = [gen_directed(i, i) for i in range(10)] + [gen_program(rng, 10 + i) for i in range(nprog)]
     for p in progs:
         p["nscenes"] = nscenes
         p["budget"] = 20 if quick else 60
@@ -433,6 +573,10 @@ def main():
         rep = dict(program=p, template=meta["template"], meta=meta, result=r)
         if r.get("pruned_invalid") and r.get("n_accepted", 0) > 0:
             c.violation("pruned-infeasible", "pruning reports a scenario infeasible although the unpruned program generated scenes", rep)
+            continue
+        if r.get("pruned_timeout"):
+            c.violation("pruning-nontermination", "compiling with pruning does not terminate (the unpruned compilation took "
+                        f"{r.get('unpruned_compile_s')} s)", rep)
             continue
         if "pruned_error" in r:
             if r.get("n_accepted", 0) > 0:
